@@ -56,7 +56,76 @@ POOL = [
     "HijriCalendar('1441-05-10').get_date().date_obj",
     "JalaliCalendar('1400/05/10').get_date().date_obj",
     "HijriCalendar('1400-05-10').get_date().date_obj",
+    # 32.. (appended: indices above are referred to by number below)
+    "dateparser.parse('32 janvier 2015', languages=['fr'])",
+    "dateparser.parse('99/99/9999')",
+    "dateparser.parse('2015-03-04', settings={'PREFER_LOCALE_DATE_ORDER': False, 'RETURN_AS_TIMEZONE_AWARE': False})",
+    "dateparser.parse('2015-03-04 10:20:30', languages=['en'], settings={'PREFER_LOCALE_DATE_ORDER': False, 'PREFER_DAY_OF_MONTH': 'first'})",
+    "dateparser.parse('02/03/2016', languages=['fr'], settings={'PREFER_LOCALE_DATE_ORDER': True})",
+    "DateDataParser(languages=['es', 'tl']).get_date_data('Lunes 02/13/2021').date_obj",
+    "DateDataParser(languages=['tl']).get_date_data('Lunes 02/03/2021').date_obj",
+    "dateparser.parse('15 mars', languages=['fr'], settings={'REQUIRE_PARTS': ['year']})",
+    "dateparser.parse('10 jan 11', languages=['ja'], settings={'DEFAULT_LANGUAGES': ['sv', 'en']})",
 ]
+
+# explicit (predecessor, call) pairs: a failing attempt under a non-MDY locale, then order-sensitive calls
+PAIRS = [(32, 34), (32, 35), (33, 34), (33, 35), (32, 38), (33, 38), (37, 38), (6, 34), (6, 38),
+         (36, 2), (36, 3), (32, 0), (33, 0)]
+
+# parser objects that are kept and reused: (constructor, probe string).  The probe's answer must be
+# the same before and after any other API call, and equal to a fresh process's answer.
+KEPT = [
+    ("DateDataParser(languages=['fr'], settings={'DATE_ORDER': 'MDY'})", "02/03/2020"),
+    ("DateDataParser(languages=['de'], settings={'DATE_ORDER': 'MDY'})", "02.03.2020"),
+    ("DateDataParser(languages=['fr'])", "02/03/2020"),
+    ("DateDataParser(languages=['en'], settings={'PREFER_LOCALE_DATE_ORDER': False})", "2015-03-04"),
+    ("DateDataParser(languages=['tl'])", "Lunes 02/03/2021"),
+    ("DateDataParser(languages=['fr'], settings={'REQUIRE_PARTS': ['year'], 'RELATIVE_BASE': B})", "15 mars"),
+    ("DateDataParser(languages=['en'], settings={'TIMEZONE': 'UTC', 'TO_TIMEZONE': 'Asia/Tokyo'})",
+     "2015-03-04 10:00"),
+    ("DateDataParser(languages=['ja'], settings={'DEFAULT_LANGUAGES': DL}, use_given_order=True)", "10 jan 11"),
+]
+BETWEEN = [
+    "dateparser.parse('02/03/2016', languages=['fr'], settings={'PREFER_LOCALE_DATE_ORDER': True})",
+    "dateparser.parse('32 janvier 2015', languages=['fr'])",
+    "dateparser.parse('99/99/9999')",
+    "dateparser.parse('12 janvier 2015', languages=['fr'], settings={'DATE_ORDER': 'DMY'})",
+    "dateparser.parse('1 hour ago', settings={'TIMEZONE': 'US/Eastern', 'RELATIVE_BASE': B})",
+    "dateparser.parse('15 mars', languages=['fr'], settings={'RELATIVE_BASE': B})",
+    "DateDataParser(languages=['ja'], settings={'DEFAULT_LANGUAGES': DL}).get_date_data('10 jan 11')",
+    "search_dates('10/11/2020', languages=['fr', 'en'])",
+]
+
+
+def kept(job):
+    k, b = job
+    ctor, probe = KEPT[k]
+    one = "(lambda d: (d.date_obj, d.period, d.locale))(%s.get_date_data(%r))"
+    body = PRELUDE + "DL = ['sv', 'en']\np = " + ctor + "\nout = []\n" \
+        + "out.append(R(lambda: %s))\n" % (one % ("p", probe)) \
+        + "R(lambda: %s)\n" % BETWEEN[b] \
+        + "out.append(R(lambda: %s))\n" % (one % ("p", probe)) \
+        + "print(json.dumps(out))\n"
+    env = dict(os.environ)
+    env["PYTHONHASHSEED"] = "0"
+    r = subprocess.run([sys.executable, "-c", body], capture_output=True, text=True, env=env,
+                       timeout=300)
+    if r.returncode != 0:
+        return (k, b, ["SCRIPT CRASHED: " + r.stderr[-300:]] * 2)
+    return (k, b, json.loads(r.stdout.strip().splitlines()[-1]))
+
+
+def kept_fresh(k):
+    ctor, probe = KEPT[k]
+    one = "(lambda d: (d.date_obj, d.period, d.locale))(%s.get_date_data(%r))" % (ctor, probe)
+    body = PRELUDE + "DL = ['sv', 'en']\nprint(json.dumps([R(lambda: %s)]))\n" % one
+    env = dict(os.environ)
+    env["PYTHONHASHSEED"] = "0"
+    r = subprocess.run([sys.executable, "-c", body], capture_output=True, text=True, env=env,
+                       timeout=300)
+    if r.returncode != 0:
+        return (k, "SCRIPT CRASHED: " + r.stderr[-300:])
+    return (k, json.loads(r.stdout.strip().splitlines()[-1])[0])
 
 
 def run_script(calls, hashseed=0):
@@ -105,8 +174,18 @@ def main():
         for c in range(n):
             if a.tier == "thorough" or (c + p) % 3 == 0:
                 hs.append([p, c])
+    hs += [list(pr) for pr in PAIRS]
     res = pmap(history, [(h, 0) for h in hs], a.procs, chunk=1)
-    evals = len(fr)
+    kf = dict(pmap(kept_fresh, list(range(len(KEPT))), a.procs, chunk=1))
+    for k, b, out in pmap(kept, [(k, b) for k in range(len(KEPT)) for b in range(len(BETWEEN))],
+                          a.procs, chunk=1):
+        for when, r in zip(("before", "after"), out):
+            if r != kf[k]:
+                failures.append({"id": "kept:%d:%s" % (k, when),
+                                 "input": "p = %s; p.get_date_data(%r) %s %s" % (
+                                     KEPT[k][0], KEPT[k][1], when, BETWEEN[b]),
+                                 "detail": "kept parser: %s ; fresh process: %s" % (r[:150], kf[k][:150])})
+    evals = len(fr) + 2 * len(KEPT) * len(BETWEEN)
     for h, s, out in res:
         for pos, (i, r) in enumerate(zip(h, out)):
             evals += 1
